@@ -126,6 +126,7 @@ type plRun struct {
 	// inlined helper: where the caller continues (nil for the root run)
 	onReturn func(dfa int, fact tokFact, pending bool, trace []string, outcome int)
 	stack    []*ssa.Function
+	fenv     map[ssa.Value]*ssa.Function // function-valued parameters of an inlined helper, bound to the functions passed
 }
 
 // outcome of an inlined call, recorded in the path's intEnv under the call
@@ -134,6 +135,9 @@ const (
 	outSuccess = 1
 )
 
+// movesCursor: a parser method that can (transitively) write a field of the
+// Parser — advance the token cursor. Pure readers (current, lookahead) and
+// error/message helpers cannot, whatever they are called.
 func (c *Ctx) movesCursor(f *ssa.Function) bool {
 	if f == nil || f.Signature.Recv() == nil {
 		return false
@@ -142,15 +146,57 @@ func (c *Ctx) movesCursor(f *ssa.Function) bool {
 	if !ok || !types.Identical(pt.Elem(), c.A.ParserT) {
 		return false
 	}
-	switch f {
-	case c.A.Current, c.A.Lookahead, c.A.LookTok:
-		return false
+	return c.writesParser(f, map[*ssa.Function]bool{})
+}
+
+func (c *Ctx) writesParser(f *ssa.Function, _ map[*ssa.Function]bool) bool {
+	if c.writesParserMemo == nil {
+		// least fixpoint over the library's static call graph
+		memo := map[*ssa.Function]bool{}
+		callees := map[*ssa.Function][]*ssa.Function{}
+		fns := allFuncs(c.SLib)
+		for _, g := range fns {
+			for _, b := range g.Blocks {
+				for _, in := range b.Instrs {
+					switch in := in.(type) {
+					case *ssa.Store:
+						if fa, ok := in.Addr.(*ssa.FieldAddr); ok {
+							if p2, ok := fa.X.Type().Underlying().(*types.Pointer); ok && types.Identical(p2.Elem(), c.A.ParserT) {
+								memo[g] = true
+							}
+						}
+					case *ssa.Call:
+						callee := staticCallee(in)
+						switch {
+						case callee == nil:
+							if _, isBuiltin := in.Call.Value.(*ssa.Builtin); !isBuiltin && !in.Call.IsInvoke() {
+								memo[g] = true // a function value: may be a parser method or a closure over the parser
+							}
+						case callee.Pkg == c.SLib:
+							callees[g] = append(callees[g], callee)
+						}
+					}
+				}
+			}
+		}
+		for changed := true; changed; {
+			changed = false
+			for _, g := range fns {
+				if memo[g] {
+					continue
+				}
+				for _, h := range callees[g] {
+					if memo[h] {
+						memo[g] = true
+						changed = true
+						break
+					}
+				}
+			}
+		}
+		c.writesParserMemo = memo
 	}
-	switch f.Name() {
-	case "syntaxError", "syntaxErrorToken":
-		return false
-	}
-	return true
+	return c.writesParserMemo[f]
 }
 
 func (p *plRun) explore(start *ssa.BasicBlock, fact tokFact) {
@@ -196,6 +242,73 @@ func (p *plRun) inlinable(f *ssa.Function) bool {
 		return false
 	}
 	return errIndex(f.Signature) >= 0 || f.Signature.Results().Len() == 0
+}
+
+func b2i(b bool) int64 {
+	if b {
+		return 1
+	}
+	return 0
+}
+
+// usedOnlyByOwnIf: the comparison feeds nothing but the branch that ends its block.
+func usedOnlyByOwnIf(v *ssa.BinOp) bool {
+	refs := v.Referrers()
+	if refs == nil {
+		return true
+	}
+	for _, r := range *refs {
+		if _, isDbg := r.(*ssa.DebugRef); isDbg {
+			continue
+		}
+		ifi, ok := r.(*ssa.If)
+		if !ok || ifi.Block() != v.Block() {
+			return false
+		}
+	}
+	return true
+}
+
+// cursorMover: a parser method, or a function literal / wrapper, that can move the cursor.
+func (c *Ctx) cursorMover(f *ssa.Function) bool {
+	if f == nil {
+		return false
+	}
+	if c.movesCursor(f) {
+		return true
+	}
+	if f.Signature.Recv() == nil && f.Parent() != nil {
+		return c.writesParser(f, nil)
+	}
+	return false
+}
+
+// funcValue: the function a function-typed SSA value denotes: a named
+// function, a literal (closure), or the method behind a bound-method value;
+// or, inside an inlined helper, what its own parameter was bound to.
+func (p *plRun) funcValue(v ssa.Value) *ssa.Function {
+	switch v := v.(type) {
+	case *ssa.Function:
+		return v
+	case *ssa.MakeClosure:
+		f, _ := v.Fn.(*ssa.Function)
+		if f != nil && f.Synthetic != "" && f.Pkg == nil {
+			// bound method wrapper: the method it forwards to
+			for _, b := range f.Blocks {
+				for _, in := range b.Instrs {
+					if call, ok := in.(*ssa.Call); ok {
+						if sc := call.Call.StaticCallee(); sc != nil {
+							return sc
+						}
+					}
+				}
+			}
+		}
+		return f
+	case *ssa.Parameter:
+		return p.fenv[v]
+	}
+	return nil
 }
 
 // tokConst: a token constant, directly or as a constant argument bound to a
@@ -275,11 +388,22 @@ func (p *plRun) walkE(cf plConfig, trace []string, prev *ssa.BasicBlock, ints in
 			if !ok {
 				break
 			}
-			if !types.Identical(ph.Type(), types.Typ[types.Int]) {
+			isBoolPhi := types.Identical(ph.Type().Underlying(), types.Typ[types.Bool])
+			if !types.Identical(ph.Type(), types.Typ[types.Int]) && !isBoolPhi {
 				continue
 			}
 			for pi, pb := range cf.blk.Preds {
 				if pb == prev {
+					if isBoolPhi {
+						if bv, ok := constBool(ph.Edges[pi]); ok {
+							upd[ph] = b2i(bv)
+						} else if n, ok := ints[ph.Edges[pi]]; ok {
+							upd[ph] = n
+						} else {
+							drop = append(drop, ph)
+						}
+						continue
+					}
 					if n, ok := ints.get(ph.Edges[pi]); ok && n >= -16 && n <= 16 {
 						upd[ph] = n
 					} else {
@@ -355,7 +479,36 @@ func (p *plRun) run(cf plConfig, start int, trace []string, ints intEnv) {
 			}
 		}
 		switch in := in.(type) {
+		case *ssa.UnOp:
+			if in.Op == token.NOT {
+				if n, ok := ints[in.X]; ok {
+					ints = ints.clone()
+					ints[in] = 1 - n
+				}
+			}
 		case *ssa.BinOp:
+			// a test of the current token kept in a variable (more := cur == tComma):
+			// the path forks here, and the variable's value is a path fact
+			if (in.Op == token.EQL || in.Op == token.NEQ) && p.isCurrentTok(in.X) && !usedOnlyByOwnIf(in) {
+				if k, ok := p.tokConst(in.Y, ints); ok {
+					if lastMatch != nil {
+						p.unknown(in.Pos(), trace, "a match result is still unexamined at a token test")
+						return
+					}
+					eq := in.Op == token.EQL
+					if fact.canBe(k) {
+						i2 := ints.clone()
+						i2[in] = b2i(eq)
+						p.run(plConfig{blk: cf.blk, dfa: dfa, fact: fact.with(k), pending: pending}, idx+1, append([]string(nil), trace...), i2)
+					}
+					if !fact.mustBe(k) {
+						i2 := ints.clone()
+						i2[in] = b2i(!eq)
+						p.run(plConfig{blk: cf.blk, dfa: dfa, fact: fact.without(k), pending: pending}, idx+1, append([]string(nil), trace...), i2)
+					}
+					return
+				}
+			}
 			if types.Identical(in.Type(), types.Typ[types.Int]) && (in.Op == token.ADD || in.Op == token.SUB) {
 				a, ok1 := ints.get(in.X)
 				b, ok2 := ints.get(in.Y)
@@ -370,6 +523,16 @@ func (p *plRun) run(cf plConfig, start int, trace []string, ints intEnv) {
 			}
 		case *ssa.Call:
 			callee := staticCallee(in)
+			if callee == nil && !in.Call.IsInvoke() {
+				if _, isBuiltin := in.Call.Value.(*ssa.Builtin); !isBuiltin {
+					if f, ok := p.fenv[in.Call.Value]; ok {
+						callee = f
+					} else {
+						p.unknown(in.Pos(), trace, "call through a function value that is not bound to a known function: it may move the cursor")
+						return
+					}
+				}
+			}
 			if b, ok := in.Call.Value.(*ssa.Builtin); ok && b.Name() == "append" {
 				if sl, ok := in.Type().Underlying().(*types.Slice); ok && c.isASTNode(sl.Elem()) && p.spec.trackAppend {
 					pending = false
@@ -415,12 +578,26 @@ func (p *plRun) run(cf plConfig, start int, trace []string, ints intEnv) {
 				if !ev(in.Pos(), "T") {
 					return
 				}
-			case c.movesCursor(callee) && p.inlinable(callee):
+			case c.cursorMover(callee) && p.inlinable(callee):
 				if lastMatch != nil {
 					p.unknown(in.Pos(), trace, "a match result is still unexamined when a helper is called")
 					return
 				}
-				sub := &plRun{c: c, fn: callee, spec: p.spec, visited: map[plConfig]bool{}, stack: append(append([]*ssa.Function(nil), p.stack...), p.fn)}
+				sub := &plRun{c: c, fn: callee, spec: p.spec, visited: map[plConfig]bool{}, stack: append(append([]*ssa.Function(nil), p.stack...), p.fn), fenv: map[ssa.Value]*ssa.Function{}}
+				// function-valued arguments (a method value, a function literal) are bound to the helper's parameters
+				for ai, par := range callee.Params {
+					off := ai
+					if in.Call.Value != nil && callee.Signature.Recv() != nil && staticCallee(in) == nil {
+						off = ai // a bound call keeps its receiver as argument 0
+					}
+					if off < len(in.Call.Args) {
+						if _, isSig := par.Type().Underlying().(*types.Signature); isSig {
+							if f := p.funcValue(in.Call.Args[off]); f != nil {
+								sub.fenv[par] = f
+							}
+						}
+					}
+				}
 				call, blk, resume := in, cf.blk, idx+1
 				sub.onReturn = func(d int, f tokFact, pend bool, tr []string, outcome int) {
 					ints2 := ints.clone()
@@ -446,7 +623,7 @@ func (p *plRun) run(cf plConfig, start int, trace []string, ints intEnv) {
 					p.unknown(f.pos, f.trace, f.what)
 				}
 				return
-			case c.movesCursor(callee):
+			case c.cursorMover(callee):
 				if !ev(in.Pos(), "call:"+callee.Name()) {
 					return
 				}
@@ -518,6 +695,15 @@ func (p *plRun) run(cf plConfig, start int, trace []string, ints intEnv) {
 					return
 				}
 				p.unknown(in.Pos(), trace, "the result of match() is not tested by the branch that follows it")
+				return
+			}
+			// a boolean whose value is a path fact (a stored token test, a flag)
+			if n, ok := ints[in.Cond]; ok && types.Identical(in.Cond.Type().Underlying(), types.Typ[types.Bool]) && lastMatch == nil {
+				idx := 1
+				if n != 0 {
+					idx = 0
+				}
+				next(cf.blk.Succs[idx], dfa, fact, pending, trace)
 				return
 			}
 			// the error of an inlined helper call?
